@@ -637,6 +637,9 @@ func (tt *TermTable) FNeg(a *Term) *Term {
 	if a.IsConst() {
 		return tt.fconst(a.Sort, -a.fval())
 	}
+	if a.Op == OFNeg {
+		return a.Args[0]
+	}
 	return tt.mk(&Term{Op: OFNeg, Sort: a.Sort, Args: []*Term{a}})
 }
 
@@ -732,6 +735,10 @@ func (tt *TermTable) FToSBV(a *Term, w int) *Term {
 }
 
 func (tt *TermTable) SBVToFP(a *Term, s Sort) *Term {
+	// float(-i) = -float(i) when -i cannot overflow: keeps negated integers in a normal form
+	if a.Op == ONeg && signedBits(a.Args[0]) < a.Sort.W {
+		return tt.FNeg(tt.SBVToFP(a.Args[0], s))
+	}
 	if a.IsConst() {
 		v := sext64(a.BV, a.Sort.W)
 		if s.K == SF32 {
